@@ -4,6 +4,7 @@ package main
 
 import (
 	"fmt"
+	"go/types"
 	"sort"
 	"strings"
 
@@ -27,6 +28,7 @@ type E5Row struct {
 	Fields   map[string]string `json:"fields"`    // emits: field provenance
 	Callee   string            `json:"callee"`    // callarg/callguard: function key of the callee
 	Arg      int               `json:"arg"`       // callarg: argument index
+	Field    string            `json:"field"`     // callarg: field path inside a struct argument; slicebound: field that is sliced
 	NoInline []string          `json:"no_inline"` // callees kept opaque (compared by name)
 	Global   string            `json:"global"`    // final: rel/pkg.var
 	Value    string            `json:"value"`     // final: expected constant (Go literal) or list literal
@@ -67,6 +69,11 @@ func (s *symFn) emissions() []emission {
 					out = append(out, emission{target: name, elem: el, cond: s.pathCond(b), block: b, pos: s.p.InstrPos(in), sf: s})
 					continue
 				}
+				if name := s.paramFieldTarget(x.Addr); name != "" && !(v.Op == "append" && len(v.Kids) >= 2) {
+					el := &Sym{Op: "struct", Name: "assign", Fields: []string{"value"}, Kids: []*Sym{v}}
+					out = append(out, emission{target: name, elem: el, cond: s.pathCond(b), block: b, pos: s.p.InstrPos(in), sf: s})
+					continue
+				}
 				if v.Op != "append" || len(v.Kids) < 2 {
 					continue
 				}
@@ -85,6 +92,33 @@ func (s *symFn) emissions() []emission {
 		}
 	}
 	return out
+}
+
+// paramFieldTarget: "paramfield:<i>.<F1>.<F2>" for a store through a pointer parameter's (nested) field.
+func (s *symFn) paramFieldTarget(addr ssa.Value) string {
+	var path []string
+	cur := addr
+	for {
+		fa, ok := cur.(*ssa.FieldAddr)
+		if !ok {
+			break
+		}
+		n, emb := fieldOf(fa.X.Type(), fa.Field)
+		if !emb {
+			path = append([]string{n}, path...)
+		}
+		cur = fa.X
+	}
+	prm, ok := cur.(*ssa.Parameter)
+	if !ok || len(path) == 0 {
+		return ""
+	}
+	for i, q := range s.fn.Params {
+		if q == prm {
+			return fmt.Sprintf("paramfield:%d.%s", i, strings.Join(path, "."))
+		}
+	}
+	return ""
 }
 
 func (s *symFn) targetName(addr ssa.Value) string {
@@ -315,6 +349,9 @@ func runE5Row(p *Program, sp *Spec, c *Collector, r *E5Row) bool {
 		key := e5Key(r, "-> "+shortFn(r.Callee))
 		if r.Kind == "callarg" {
 			key += fmt.Sprintf(" arg%d", r.Arg)
+			if r.Field != "" {
+				key += "." + r.Field
+			}
 		}
 		if len(sites) != 1 {
 			c.Ob(r.Props, "E5.decision", key, Violated, fmt.Sprintf("%s: expected exactly one call of %s in %s, found %d", r.What, shortFn(r.Callee), shortFn(r.Func), len(sites)), pos, false)
@@ -356,12 +393,70 @@ func runE5Row(p *Program, sp *Spec, c *Collector, r *E5Row) bool {
 				c.Anchor(r.Props, "E5: %s: call of %s has no argument %d", r.Func, r.Callee, r.Arg)
 				return false
 			}
-			got = sf.val(site.Call.Args[r.Arg])
+			arg := site.Call.Args[r.Arg]
+			if al, ok := arg.(*ssa.Alloc); ok {
+				if _, isStruct := al.Type().Underlying().(*types.Pointer).Elem().Underlying().(*types.Struct); isStruct {
+					got = sf.structCell(al, site)
+				}
+			}
+			if got == nil {
+				got = sf.val(arg)
+			}
+			if r.Field != "" {
+				for _, part := range strings.Split(r.Field, ".") {
+					got = sField(got, part, false, nil)
+				}
+			}
 		}
 		got = got.subst(subst)
 		return e5Compare(c, r, key, p.InstrPos(site), got, want, hint, r.What)
 	}
-	c.Anchor(r.Props, "E5: unknown row kind %q", r.Kind)
+	if r.Kind == "slicebound" {
+		// the upper bound of the slice expression x.<Field>[:hi]
+		var site *ssa.Slice
+		n := 0
+		for _, b := range fn.Blocks {
+			for _, in := range b.Instrs {
+				if sl, ok := in.(*ssa.Slice); ok && sl.High != nil {
+					base := sf.val(sl.X)
+					if base.Op == "field" && base.Name == r.Field {
+						site = sl
+						n++
+					}
+				}
+			}
+		}
+		key := e5Key(r, "slice of "+r.Field)
+		if n != 1 {
+			c.Ob(r.Props, "E5.decision", key, Violated, fmt.Sprintf("%s: expected exactly one slice expression over .%s in %s, found %d", r.What, r.Field, shortFn(r.Func), n), pos, false)
+			return false
+		}
+		extra := []string{}
+		subst := map[string]*Sym{}
+		if r.Each != nil {
+			names := strings.Split(r.Each.As, ",")
+			var hs []*ssa.BasicBlock
+			for h, l := range sf.headers {
+				if l[site.Block()] {
+					hs = append(hs, h)
+				}
+			}
+			sort.Slice(hs, func(i, j int) bool { return len(sf.headers[hs[i]]) > len(sf.headers[hs[j]]) })
+			for i, h := range hs {
+				if i < len(names) {
+					extra = append(extra, strings.TrimSpace(names[i]))
+					subst[sf.binderName(h)] = &Sym{Op: "param", Name: fmt.Sprintf("p%d", len(r.Params)+i)}
+				}
+			}
+		}
+		want, err := parse(r.Expr, extra...)
+		if err != nil {
+			c.Fatal("E5: %v", err)
+			return false
+		}
+		return e5Compare(c, r, key, p.InstrPos(site), sf.val(site.High).subst(subst), want, "int", r.What)
+	}
+	c.Fatal("E5: unknown row kind %q", r.Kind)
 	return false
 }
 
@@ -388,7 +483,9 @@ func targetMatches(got, want string) bool {
 		return true
 	}
 	if strings.HasPrefix(want, "mapstore:") && strings.HasPrefix(got, "mapstore:") {
-		return strings.Contains(got, strings.TrimPrefix(want, "mapstore:"))
+		w, g := strings.TrimPrefix(want, "mapstore:"), strings.TrimPrefix(got, "mapstore:")
+		// a map made in the function (makemapN), a parameter (pN), or the field <Name> of some object
+		return g == w || g == "call:"+w+"()" || strings.HasSuffix(g, "."+w)
 	}
 	return false
 }
